@@ -63,3 +63,9 @@ func init() {
 		Rule: flowRule + "non-trivial = at least three callback invocations and a failing item; batches up to 16 items, concurrency 0..4, stop and continue modes, random schedules and 'failure handled first' schedules (in-flight items parked, failing worker boosted)",
 		Must: []string{"items_in_flight_together"}}
 }
+
+func init() {
+	props["C05"] = &propCfg{Parts: []part{{Engine: "flowsim", Quick: 60000, Thorough: 1500000}},
+		Rule: flowRule + "cancellation injected before the run (cancel / expired deadline), synchronously inside one callback invocation on the executed path, or by a deadline strictly inside a callback's simulated sleep or a retry wait; non-trivial = at least three callback invocations and at least one fault fired",
+		Must: []string{"run_cut_short", "cancel_landed_in_wait"}}
+}
